@@ -134,6 +134,15 @@ theorem capAtOne_nonneg {m : Option α} (h : ∀ v, m = some v → 0 ≤ v) : 0 
     · exact zero_le_one
     · exact h w rfl
 
+theorem le_capAtOne {m : Option α} {x : α} (h1 : x ≤ 1) (h2 : ∀ v, m = some v → x ≤ v) : x ≤ capAtOne m := by
+  cases m with
+  | none => simpa [capAtOne] using h1
+  | some w =>
+    simp only [capAtOne, Nat.cast_one]
+    split
+    · exact h1
+    · exact h2 w rfl
+
 theorem capAtOne_lt_one {m : Option α} (h : capAtOne m < 1) : m = some (capAtOne m) := by
   cases m with
   | none => simp [capAtOne] at h
